@@ -206,7 +206,6 @@ def handle (j : Json) : R Json := do
                        ("applied", Json.bool (appliedB ops glue c cfg o)),
                        ("writes", Json.bool (writesB ops glue c cfg o)),
                        ("rejected", Json.bool (rejectedB ops c cfg o)),
-                       ("rejectedLimit", Json.bool (rejectedLimitB ops c cfg o)),
                        ("accepted", Json.bool (acceptedB ops c cfg o)),
                        ("whole", Json.bool (wholeB o))]
   | "node" =>
